@@ -61,7 +61,7 @@ def check_model(w, view, probs, who, key=None):
     m = w.model
     key = key or w.key
     # identities present / absent
-    want = {'A': ('uid', H.UID_A.encode()), 'B': ('uid', H.UID_B.encode()), 'IMG': ('uat', None)}
+    want = {'A': ('uid', H.UID_A.encode()), 'B': ('uid', H.UID_B.encode()), 'E': ('uid', b''), 'IMG': ('uat', None)}
     have = [(k, d) for k, d, _ss in view['ids']]
     for name, (kind, data) in want.items():
         present = any(k == kind and (data is None or d == data) for k, d in have)
@@ -76,7 +76,7 @@ def check_model(w, view, probs, who, key=None):
     if has_keyrev != m.key_revoked:
         probs.append(('revocation-placement', '%s: key revocation signature %s' % (who, 'missing' if m.key_revoked else 'present but nothing was revoked')))
     for kind, data, ss in view['ids']:
-        name = 'IMG' if kind == 'uat' else ('A' if data == H.UID_A.encode() else 'B')
+        name = 'IMG' if kind == 'uat' else ('A' if data == H.UID_A.encode() else 'E' if data == b'' else 'B')
         rev = any(sv['type'] == 0x30 for sv in ss)
         if name in m.uids and rev != m.uids[name]['revoked']:
             probs.append(('revocation-placement', '%s: certification revocation on identity %s: %s, model: %s' % (who, name, rev, m.uids[name]['revoked'])))
@@ -97,7 +97,7 @@ def check_model(w, view, probs, who, key=None):
         probs.append(('revocation-report', '%s: revocation_signatures raised %r' % (who, e)))
     # effective preferences = those of (one of) the most recent self-certification(s), for non-revoked identities
     for u in A.identities(key):
-        name = 'IMG' if u.is_ua else ('A' if u.userid == H.UID_A else 'B')
+        name = 'IMG' if u.is_ua else ('A' if u.userid == H.UID_A else 'E' if u.userid == '' else 'B')
         if name not in m.uids or m.uids[name]['revoked']:
             continue
         certs = m.uids[name]['certs']
@@ -119,7 +119,7 @@ class Prop(object):
     ID = 'C15'
     LEVEL = 'model_checking'
     TECHNIQUE = 'explicit-state breadth-first search over key-management histories on real PGPKey objects (state = replayed history, canonical-state deduplication), reference model in lock-step, invariant evaluated in every state'
-    RULE = ('menu of 25 operations (add identity / image, add signing / encryption subkey, re-certify with new preferences, same-second re-certification, third-party '
+    RULE = ('menu of 26 operations (add identity / image / empty identity, add signing / encryption subkey, re-certify with new preferences, same-second re-certification, third-party '
             'certification exportable / local / issuer named by key id only, revoke identity / subkey / key, designated revoker, direct-key signature, delete identity, protect, derive and keep / release the public '
             'key, copy, export-import binary / armored) from 3 roots (Ed25519, P-256, RSA-2048), all sequences up to the depth bound, deduplicated on the canonical '
             'export (times ranked, integers masked). One state = one canonical key state; one transition = one real API call replayed on fresh objects.')
